@@ -670,6 +670,71 @@ example : (run c1 (init c1) [.start, .term]).phase = .terminated ∧
     (run c1 (run c1 (init c1) [.start, .term]) [.renew none true, .start, .tick 1, .apo]).phase = .terminated := by
   decide
 
+/-! ## A callback that calls back into the lifecycle (auto-renewal)
+
+Outside the property's assumption "callbacks do not call back".  `stepRe` models the nine methods under an
+`on_senescence` that calls `renew(None, True)` on the lifecycle. -/
+
+/-- A call under an auto-renewing `on_senescence`: a tick still reports True exactly when the lifecycle is ACTIVE
+    afterwards; the length stays within bounds; the lock events run to completion under a re-entrant lock; when the
+    call announces no senescence it is the normal call; and when it does and renewal is allowed, the lifecycle is ACTIVE
+    again afterwards (the senescence and the recovery both announced, in this order). -/
+theorem c09_auto_renewing_callback_call_is_consistent (cfg : Cfg) (s : State) (op : Op) :
+    (∀ c, op = .tick c → ∃ b, (stepRe cfg s op).ret = .bool b ∧ (b = true ↔ (stepRe cfg s op).st.phase = .active)) ∧
+    (WF cfg s → WF cfg (stepRe cfg s op).st) ∧
+    lockRun .rlock 0 (stepRe cfg s op).lock = true ∧
+    ((step cfg s op).evs.any Ev.isSenescence = false → (stepRe cfg s op).st = (step cfg s op).st ∧
+      (stepRe cfg s op).evs = (step cfg s op).evs ∧ (stepRe cfg s op).ret = (step cfg s op).ret) ∧
+    ((step cfg s op).evs.any Ev.isSenescence = true → cfg.allowRenew = true →
+      (stepRe cfg s op).st.phase = .active ∧
+      (stepRe cfg s op).evs = (step cfg s op).evs ++ [.change .senescent .active]) := by
+  by_cases h : (step cfg s op).evs.any Ev.isSenescence = true
+  · have hs := sen_step cfg s op h
+    have hr := renew_of_senescent cfg (step cfg s op).st hs.1
+    refine ⟨?_, ?_, ?_, ?_, ?_⟩
+    · intro c hc
+      subst hc
+      refine ⟨decide ((step cfg (step cfg s (.tick c)).st (.renew none true)).st.phase = .active), ?_, ?_⟩
+      · simp only [stepRe, h, if_true]
+      · simp only [stepRe, h, if_true]; simp
+    · intro hw
+      simp only [stepRe, h, if_true]
+      exact wf_step cfg _ _ (wf_step cfg s op hw)
+    · simp only [stepRe, h, if_true]
+      cases ha : cfg.allowRenew
+      · rw [hr.2 ha]
+        rcases hs.2 with hl | hl <;> rw [hl] <;> decide
+      · rw [(hr.1 ha).2.2]
+        rcases hs.2 with hl | hl <;> rw [hl] <;> decide
+    · intro h'; rw [h] at h'; cases h'
+    · intro _ ha
+      simp only [stepRe, h, if_true]
+      exact ⟨(hr.1 ha).1, by rw [(hr.1 ha).2.1]⟩
+  · have h0 : (step cfg s op).evs.any Ev.isSenescence = false := by simpa using h
+    have he : stepRe cfg s op = step cfg s op := by simp [stepRe, h0]
+    refine ⟨?_, ?_, ?_, ?_, ?_⟩
+    · intro c hc
+      subst hc
+      rw [he]
+      exact c09_tick_true_iff_active_after cfg s c
+    · intro hw; rw [he]; exact wf_step cfg s op hw
+    · rw [he]
+      obtain ⟨ph, len, errs, ops, ren, rsn, st0, la, now, evn⟩ := s
+      cases op <;> simp [step, start, tick, recordError, heartbeat, checkTimeouts, renew, apoptosis, terminate, reset] <;>
+        (repeat' split) <;> simp [lockRun, canAcq, lkOnce, lkNested, lkNone]
+    · intro _; rw [he]; exact ⟨rfl, rfl, rfl⟩
+    · intro h'; rw [h0] at h'; cases h'
+
+/-- auto-renewal happens: the tick that depletes the lifecycle announces A>S, the callback renews, the tick reports
+    True and the lifecycle is ACTIVE at full length with one renewal; under a non-reentrant lock the nested renewal would be
+    stuck -/
+example :
+    let c : Cfg := ⟨3, 2, true, none, none⟩
+    let o := stepRe c (run c (init c) [.start]) (.tick 3)
+    o.ret = .bool true ∧ o.st.phase = .active ∧ o.st.length = 3 ∧ o.st.renewals = 1 ∧
+    o.evs = [.change .active .senescent, .senescence .depletion, .change .senescent .active] ∧
+    o.lock = [.acq, .acq, .rel, .rel] ∧ lockRun .lock 0 o.lock = false := by decide
+
 /-! ## Overlapping calls (two threads on one lifecycle)
 
 OS threads are outside the property's quantifier (sequential histories); what can be said from the source is the
@@ -768,6 +833,14 @@ example : (run c1 (init c1) [.start, .tick 0, .tick 0, .tick 0, .err]).phase = .
 example : (run c1 (init c1) [.start, .tick 1, .tick 1, .renew none true, .hb, .adv 900000000]).phase = .active ∧
     (step c1 (run c1 (init c1) [.start, .tick 1, .tick 1, .renew none true, .hb, .adv 900000000]) .timeouts).st.reason
       = some .timeout := by decide
+
+/-- the time limits also fire after LONG gaps: one day, a week and a month plus one second with a 15-minute lifetime
+    limit; two days and 20 minutes of idleness with a 15-second idle limit -/
+example : (step c1 (run c1 (init c1) [.start, .adv 86400000000]) .timeouts).st.reason = some .timeout ∧
+    (step c1 (run c1 (init c1) [.start, .adv 604800000000]) .timeouts).st.phase = .senescent ∧
+    (step c1 (run c1 (init c1) [.start, .adv 2592001000000]) .timeouts).ret = .bool false ∧
+    (step ⟨3, 2, true, none, some 15000000⟩ (run ⟨3, 2, true, none, some 15000000⟩ (init ⟨3, 2, true, none, some 15000000⟩)
+      [.start, .adv 174000000000]) .timeouts).st.reason = some .idle := by decide
 
 /-- record_error before start leaves the lifecycle NASCENT (the repaired behaviour), renewal of a senescent
     lifecycle is the only way back to ACTIVE -/
